@@ -41,4 +41,10 @@ def run(ctx):
     chanlib.liveness_tie(ctx, "conc-liveness", [h, "gen", "--seed", str(ctx.seed), "--cases", str(n), "--mode", "conc",
                                                 "--tier", ctx.tier], drv)
     chanlib.race_pairs_tie(ctx, h, drv)
+    # scenario DFS: a future woken for an item / for space is dropped un-polled while the other side is parked
+    # (exhaustive over schedules with one preemption; a swallowed or misdirected wake ends in a deadlock)
+    sc = os.path.join(VERIF, "corpus", "chan_dfs", "dropfut.case")
+    if os.path.exists(sc) and not ctx.replay:
+        chanlib.liveness_tie(ctx, "dropfut-scenarios-dfs", [h, "dfs", sc, "--preempt", "1" if ctx.quick else "2",
+                                                           "--max-runs", "300" if ctx.quick else "4000", "--all"], drv)
     chanlib.layer_b(ctx, LAYER_B)
